@@ -147,6 +147,22 @@ for nm, ent, can in (("c17_simplifier_rope_densify_step", "h_rope_densify", [dic
     UNITS.append(dict(name=nm, template="C17/rope.c", mode="plain", entry=ent, flags=[f for f in PFL if f != "--conversion-check"], unwind=9, level="bounded", backend="minisat", timeout=1800, sources=ROPE_SRC,
                       bound="inductive step from an arbitrary path of <= 5 states, <= 2 interpolated states per motion; additive objective with non-negative motion costs <= 2^40", functions=["ompl::geometric::PathSimplifier::ropeShortcutPath (" + ("densification of one motion" if "densify" in nm else "shortcut block") + ")"], canaries=can, defines=dict(NMAX=5)))
 
+# ---------------------------------------------------------------- PathGeometric::checkAndRepair
+CR_RULES = [
+    (r"if \(!si_->isSetup\(\)\)\s*si_->setup\(\);", "", 0), (r"states_\.empty\(\)", "(states__size == 0)", 0), (r"states_\.size\(\)", "states__size", 0),
+    (r"return std::make_pair\(([^;]+?), ([^;]+?)\);", r"{ PairBB r_ = {\1, \2}; return r_; }", 0), (r"states_\[([^\]]+)\]", r"states_(\1)", 0),
+    (r"si_->isValid\(", "IS_VALID(", 0), (r"si_->checkMotion\(", "CHECK_MOTION(", 0),
+    (r"base::State \*temp = nullptr;", "int temp = 0;", 0), (r"base::UniformValidStateSampler \*uvss = nullptr;", "int uvss = 0;", 0),
+    (r"temp = si_->allocState\(\);", "{ temp = 9; live_temp++; }", 0), (r"uvss = new base::UniformValidStateSampler\(si_\.get\(\)\);\s*uvss->setNrAttempts\(attempts\);", "uvss = 1; live_uvss++; nr_attempts_set = attempts;", 0),
+    (r"si_->copyState\(temp, states_\(i\)\);", ";", 0), (r"si_->distance\(", "DISTANCE(", 0), (r"si_->getStateSpace\(\)->interpolate\([^;]*\);", ";", 0), (r"std::max\(", "MAXD(", 0),
+    (r"uvss->sampleNear\(states_\(i\), temp, radius\)", "SAMPLE_NEAR(i)", 0), (r"si_->freeState\(temp\);", "live_temp--;", 0), (r"uvss == nullptr", "uvss == 0", 0), (r"delete uvss;", "live_uvss--;", 0),
+]
+UNITS.append(dict(name="c17_checkAndRepair", template="C17/check_repair.c", mode="plain", entry="h_checkAndRepair", flags=["--bounds-check", "--pointer-check", "--signed-overflow-check", "--conversion-check"], unwind=7, level="bounded",
+                  bound="paths of <= 5 states, <= 2 sampling attempts per repaired state", backend="cadical", timeout=600, functions=["ompl::geometric::PathGeometric::checkAndRepair"],
+                  sources=[dict(name="checkAndRepair", file="src/ompl/geometric/src/PathGeometric.cpp", sig=r"std::pair<bool, bool> ompl::geometric::PathGeometric::checkAndRepair\(unsigned int attempts\)", rules=CR_RULES, loops={"allow_uncontracted": True})],
+                  canaries=[dict(name="last_motion_never_checked", where="body:checkAndRepair", rx=r"i == n1 - 1 &&", repl="i == n1 &&"),
+                            dict(name="repair_not_rechecked_against_the_next_state", where="body:checkAndRepair", rx=r"\(i < n1 - 1 \|\| CHECK_MOTION\(states_\(i\), states_\(i \+ 1\)\)\)", repl="1")]))
+
 ASSUMPTIONS = ["the state vector is modelled as the identity sequence; getMotionStates(s1,s2,block,ns,false,true) yields exactly ns interior states (its own contract, not verified here)",
                "(int)floor(0.5 + count*segLen/remaining) is an arbitrary int below INT_MAX: for a zero-length path the operand is NaN and the conversion is undefined behaviour in C++ (x86 yields INT_MIN, which the code tolerates); recorded as an assumption"]
 TRUSTED = ["extraction rewrite tables of units/C17.py", "stubs in units/C17/pathgeom.c", "CBMC 6.11 DFCC + cadical/minisat"]
